@@ -461,6 +461,7 @@ func genC12(g *G) {
 	genPremium(g)
 	genFeeAndVerify(g)
 	genImplOnly(g)
+	genManyOpts(g)
 }
 
 func c12OkPrice(g *G) any {
@@ -990,6 +991,29 @@ func genFeeAndVerify(g *G) {
 }
 
 // ---- implementation only: malformed opts, typed nil pointers
+
+// genManyOpts: more distinct valid options than any plausible table of parsed options holds (4 200), each used once,
+// then the early ones again (a bounded cache that restarts badly shows on the way round)
+func genManyOpts(g *G) {
+	price := c12DecSV(c12Dv{c12Bi(2), 0})
+	one := c12Dv{c12Bi(1), 0}
+	q := c12QuoteSV(one, one, one)
+	feed := c12RandFeed(g)
+	mk := func(win uint32) evmOpts {
+		return evmOpts{Kind: "unpacked", Base: one, Window: uint64(win), FeedID: feed, ABI: [][]c12Enc1{{{"int192", nil}}}}
+	}
+	n := 4200
+	if !g.Thorough() {
+		n = 4200
+	}
+	for i := 0; i < n; i++ {
+		c12EmitEncode(g, mk(uint32(100+i)), 0, evmReportJ(7, 1e9, 5e9, false, []any{price, price, c12DecSV(c12Dv{c12Bi(int64(i)), 0})}), false, "many-distinct-opts")
+	}
+	for i := 0; i < 300; i++ {
+		c12EmitEncode(g, mk(uint32(100+i*13)), 0, evmReportJ(7, 1e9, 5e9, false, []any{price, price, c12DecSV(c12Dv{c12Bi(int64(i)), 0})}), false, "many-distinct-opts", "again")
+	}
+	_ = q
+}
 
 func genImplOnly(g *G) {
 	one := c12Dv{c12Bi(1), 0}
